@@ -5,7 +5,8 @@ def PrefilledTargetResume(**f):
     """F13 (spec: DagExec.StaleByF13): store into a user target that held data in EVERY chunk before the computation;
     crash; resume -> the store operation looks complete and is skipped, stale chunks stay.  Matches only: the program
     stores into a pre-populated existing target, the run was resumed, and the wrong values are in that target."""
-    return bool(f.get("resumed") and f.get("prefilled_target") and f.get("kind") == "values")
+    return bool(f.get("resumed") and f.get("prefilled_target") and f.get("kind") == "values") or \
+        bool(f.get("kind") == "history" and "prefilled-resume" in (f.get("taint") or []))   # PlanGraph.tla taint of the same pattern
 
 
 def LegacyFuseStreamArg(**f):
